@@ -13,6 +13,7 @@ from simlib import Rng, mkspec, random_sched
 PROPERTY = "C05"
 LEVEL = "exploration"
 BUDGET = {"quick": 75, "thorough": 1500}
+MIN_CASES = {"quick": 3000}  # see checklib.Check: quick goes on to this many cases on a loaded machine (up to 3x its budget)
 RULE = ("three case families: (a) 1-4 input files (empty files, missing final newline, CSV headers differing per file, "
         "implicit header) through put emitting NR/FNR/FILENAME/FILENUM/NF, judged against a ten-line independent model, "
         "under batch sizes that put file boundaries inside and at the edges of batches, schedules and read chunkings; "
